@@ -51,6 +51,9 @@ def gen(seed, tier):
         pl["stack_objectives"] = objs
         pl["mixed_directions"] = True
     sp = pl.get("sprout")
+    if sp and "generator" in sp and seed % 5 == 2:
+        # a user-defined filter written in functional style (returns a new dict with new candidate objects)
+        sp["deme_filters"].insert((seed // 5) % (len(sp["deme_filters"]) + 1), {"kind": "functional"})
     if sp and "generator" in sp:
         # make several candidates per parent likely: NBC generator, DemeLimit(k>1) or none
         import random
